@@ -2,6 +2,7 @@
 //! run pool, evidence writer, known-findings reader.
 
 pub mod civil;
+pub mod envswarm;
 pub mod evidence;
 pub mod known;
 pub mod miri;
